@@ -49,9 +49,43 @@ S6 == [type |-> "object", pk |-> <<"n", "s">>, ps |-> <<TInt, [type |-> "string"
 (* SN: the body may be the JSON value null (a body that is there and says null is not an absent body) *)
 SN == [type |-> "object", nullable |-> TRUE] @@ Props
 
-SchemaOf(c) == IF c.family = "text" THEN TextSchema ELSE IF c.schema = "SN" THEN SN
+(* S7: a write-only property (a request may -- here must -- carry it; it is an ordinary property of a request) next to a read-only one *)
+S7 == [type |-> "object", required |-> <<"ro", "wo">>, pk |-> <<"n", "ro", "wo">>,
+       ps |-> <<TInt, [type |-> "string", readOnly |-> TRUE], [type |-> "string", writeOnly |-> TRUE]>>]
+
+(* Schemas of a text/plain body (and of a multipart part decoded as plain text).  The value a plain-text body encodes is *)
+(* the string it carries, whatever the schema says -- in particular when the schema has NO "type" keyword (T1..T5): a   *)
+(* bare enum, length bounds, a pattern, nullable, a composition.  T6 (type: integer): the text is still a string, so    *)
+(* no letter text satisfies it; whether a digit text could is left open (excluded by the generator).                    *)
+TextSchemaOf(name) ==
+   CASE name = "T1" -> [enum |-> <<Str(<<"a">>), Str(<<"a", "b", "c">>), Str(<<"4", "2">>)>>]
+     [] name = "T2" -> [nullable |-> TRUE, maxLength |-> 2]
+     [] name = "T3" -> [minLength |-> 2]
+     [] name = "T4" -> [pattern |-> "^a"]
+     [] name = "T5" -> [oneOf |-> <<[type |-> "string", maxLength |-> 1], [minLength |-> 3]>>]
+     [] name = "T6" -> [type |-> "integer"]
+     [] name = "T7" -> [type |-> "string", nullable |-> TRUE, maxLength |-> 2]
+     [] OTHER -> TextSchema                                                          \* "text" / "T0"
+
+(* wrap: the object schema sits inside a composition / below an array or a property; the request-side reading   *)
+(* (read-only absent unless excluded, required read-only exempt, write-only inert) holds wherever the schema sits *)
+Wrap(s, w) ==
+   CASE w = "anyOf"      -> [anyOf |-> <<[type |-> "boolean"], s>>]
+     [] w = "anyOf2"     -> [anyOf |-> <<[s EXCEPT !.required = <<"l", "ls">>], s>>]   \* two object alternatives declaring the same properties
+     [] w = "oneOf"      -> [oneOf |-> <<s, [type |-> "boolean"]>>]
+     [] w = "allOf"      -> [allOf |-> <<[type |-> "object"], s>>]
+     [] w = "allOfT"     -> [type |-> "object", allOf |-> <<s>>]
+     [] w = "allOfAnyOf" -> [allOf |-> <<[anyOf |-> <<s>>]>>]
+     [] w = "items"      -> [type |-> "array", items |-> s]
+     [] w = "itemsAnyOf" -> [type |-> "array", items |-> [anyOf |-> <<s>>]]
+     [] w = "prop"       -> [type |-> "object", pk |-> <<"in">>, ps |-> <<s>>]
+     [] w = "propAnyOf"  -> [type |-> "object", pk |-> <<"in">>, ps |-> <<[anyOf |-> <<s, [type |-> "boolean"]>>]>>]
+     [] OTHER -> s
+
+BaseSchemaOf(c) == IF c.family = "text" THEN TextSchemaOf(c.schema) ELSE IF c.schema = "SN" THEN SN
                ELSE CASE c.schema = "S1" -> S1 [] c.schema = "S3" -> S3 [] c.schema = "S4" -> S4 [] c.schema = "S4a" -> S4a
-                      [] c.schema = "S5" -> S5 [] c.schema = "S6" -> S6 [] OTHER -> S2
+                      [] c.schema = "S5" -> S5 [] c.schema = "S6" -> S6 [] c.schema = "S7" -> S7 [] OTHER -> S2
+SchemaOf(c) == IF "wrap" \in DOMAIN c THEN Wrap(BaseSchemaOf(c), c.wrap) ELSE BaseSchemaOf(c)
 
 DecodeAccepts(c) == Valid(SchemaOf(c), c.v, IF c.excludeRO THEN "asreq_noro" ELSE "asreq")
 
